@@ -11,11 +11,64 @@ import (
 	"verifharness/vk"
 )
 
-// estFactor is the trusted quality of the Hager/Higham 1-norm estimator used by
-// Gecon/Pocon/Trcon: it never over-estimates ||A^-1|| and (LAPACK Users' Guide
-// 4.1.1: "almost always within a factor of 3") is assumed not to under-estimate
-// by more than this factor on the generated inputs.
+// estFactor is the usual quality of the Hager/Higham 1-norm estimator used by
+// Gecon/Pocon/Trcon/Pbcon (LAPACK Users' Guide 4.1.1: "almost always within a
+// factor of 3"). It is NOT a guarantee: for A^-1 with columns of alternating
+// sign the estimate can be an order of magnitude too small (a 5×5 SPD witness
+// with factor 12.6 was found by this harness and reproduced with an independent
+// implementation of the algorithm). A Cond below kappa/estFactor is therefore
+// only counted as inconclusive; the hard lower bound is altLower.
 const estFactor = 10.0
+
+// altLower returns a rigorous lower bound on the estimate of ||B||_1 produced by
+// the Hager/Higham iteration (Dlacn2): its result is max(est, 2*||B*b||_1/(3n))
+// with b_i = (-1)^i (1 + i/(n-1)), so it is at least the second term. For the
+// infinity-norm condition number (CondNorm = MaxRowSum) B is the transpose of
+// the inverse, for the 1-norm it is the inverse itself.
+func altLower(B *M) float64 {
+	n := B.r
+	if n == 1 {
+		return math.Abs(B.d[0])
+	}
+	var s float64
+	for i := 0; i < n; i++ {
+		var acc float64
+		for j := 0; j < n; j++ {
+			b := 1 + float64(j)/float64(n-1)
+			if j%2 == 1 {
+				b = -b
+			}
+			acc += B.d[i*n+j] * b
+		}
+		s += math.Abs(acc)
+	}
+	return 2 * s / (3 * float64(n))
+}
+
+// permSym returns B[p[i]][p[j]] (the inverse of P'AP from the inverse of A).
+func permSym(B *M, p []int) *M {
+	n := B.r
+	R := newM(n, n)
+	for i := 0; i < n; i++ {
+		for j := 0; j < n; j++ {
+			R.d[i*n+j] = B.d[p[i]*n+p[j]]
+		}
+	}
+	return R
+}
+
+// condLower checks the lower side of a reported condition number: anorm is a
+// lower bound of the norm the routine multiplies with, B as for altLower, kappa
+// the exact condition number in the estimator's norm.
+func condLower(what string, cond, anorm float64, B *M, kappa float64) *vk.Failure {
+	if lo := anorm * altLower(B) * (1 - 1e-3); !(cond >= lo) {
+		return failf(what, "Cond()=%g is below ||A||*2||A^-1 b||/(3n)=%g, which the condition estimator attains for every matrix (exact kappa %g)", cond, lo, kappa)
+	}
+	if !(cond >= kappa*(1-1e-3)/estFactor) {
+		vk.Inconclusive("cond-estimate-below-kappa/10")
+	}
+	return nil
+}
 
 // condOf extracts a mat.Condition from err.
 func condOf(err error) (float64, bool) {
@@ -362,8 +415,8 @@ func checkLU(c luCase) *vk.Failure {
 			if !(cond <= kinf*(1+relRef)) {
 				return failf("cond-upper", "n=%d Cond=%g exceeds kappa_inf=%g", n, cond, kinf)
 			}
-			if !(cond >= kinf*(1-relRef)/estFactor) {
-				return failf("cond-lower", "n=%d Cond=%g below kappa_inf/%g, kappa_inf=%g", n, cond, estFactor, kinf)
+			if f := condLower("cond-lower", cond, normInf(A), inv.t(), kinf); f != nil {
+				return f
 			}
 		}
 	}
